@@ -41,6 +41,7 @@ func main() {
 	timeoutS := flag.Int("timeout", 0, "per-obligation solver timeout in seconds (default: 10 quick, 60 thorough)")
 	fuel := flag.Int("fuel", 2, "unfolding depth of recursive spec functions")
 	known := flag.String("known", "", "known findings file")
+	noReplay := flag.Bool("noreplay", false, "do not try to replay counterexamples")
 	forceArith := flag.String("arith", "", "force arithmetic mode (bv|int) for all functions (experiments)")
 	flag.Parse()
 
@@ -210,10 +211,23 @@ func main() {
 			continue
 		}
 		violations++
-		rp := writeReplay(*replayDir, pid, ob)
 		tail := " no-failing-input-found"
+		if ob.Status == "sat" && !*noReplay {
+			ob.RR = e.replay(ob, timeout)
+			if ob.RR.Reproduced {
+				tail = ""
+			}
+		}
+		rp := writeReplay(*replayDir, pid, ob)
 		fmt.Printf("VIOLATION property=%s replay=%s%s\n", pid, rp, tail)
 		fmt.Printf("  obligation %s [%s] %s: %s\n  at %s, solver %s said %s\n", ob.Name, ob.Kind, ob.Func, ob.Text, ob.Pos, ob.Solver, ob.Status)
+		if ob.RR != nil {
+			if ob.RR.Reproduced {
+				fmt.Printf("  replayed on the real code with inputs %v\n", ob.RR.Inputs)
+			} else {
+				fmt.Printf("  replay: %s\n", ob.RR.Why)
+			}
+		}
 		exit = 1
 	}
 	if nContracts == 0 || (len(jobs) > 0 && nTotal == 0) {
@@ -381,6 +395,18 @@ func writeReplay(dir, prop string, ob *Obligation) string {
 		"solver": map[string]interface{}{"name": ob.Solver, "status": ob.Status, "time_s": ob.Time, "stdout": out},
 		"model":  model, "smt2": smt, "reproduced": false,
 		"outcome": "obligation not discharged; no concrete failing input was produced (no-failing-input-found)",
+	}
+	if ob.RR != nil {
+		rec["replay_attempted"] = ob.RR.Attempted
+		rec["reproduced"] = ob.RR.Reproduced
+		rec["replay_test"] = ob.RR.Test
+		rec["replay_output"] = ob.RR.Output
+		rec["inputs"] = ob.RR.Inputs
+		if ob.RR.Reproduced {
+			rec["outcome"] = "counterexample replayed against the real code: the injected in-package test fails"
+		} else {
+			rec["outcome"] = "obligation not discharged; replay: " + ob.RR.Why + " (no-failing-input-found)"
+		}
 	}
 	data, _ := json.MarshalIndent(rec, "", " ")
 	os.WriteFile(p, data, 0o644)
